@@ -246,6 +246,21 @@ def r1(db, rep):
                     resets = [x for x in facts.fn_nodes(f) if x["k"] == "BinaryOperator" and x.get("op") == "=" and
                               strip(x["c"][0]).get("var") == acc and x is not q_ and g.reachable(g.pos(n), g.pos(x)) and
                               not any(y["k"] == "DeclRefExpr" and y.get("var") == acc for y in facts.walk(x["c"][1]))]
+                    # ... or `total = acc + sum_range(...)`: a later sum that reads the accumulator and adds the layer's bytes
+                    for x in facts.fn_nodes(f):
+                        val_ = None
+                        if x["k"] == "VarDecl" and x.get("c"):
+                            val_ = x["c"][0]
+                        elif x["k"] == "BinaryOperator" and x.get("op") == "=" and x is not q_:
+                            val_ = x["c"][1]
+                        if val_ is None:
+                            continue
+                        for y in facts.walk(val_):
+                            if y["k"] == "BinaryOperator" and y.get("op") == "+" and \
+                                    any(z["k"] == "DeclRefExpr" and z.get("var") == acc for z in facts.walk(y)) and \
+                                    any(z["k"] == "CallExpr" and z.get("cname") in SUM_FNS for z in facts.walk(y)):
+                                adds.append(x)
+                                break
                     if adds and not resets and g.reaches_exit_avoiding(g.pos(n), [g.pos(x) for x in adds], normal_only=True) is None:
                         okadd = True
             if okaddr and oksize and okproto and okparent and okadd:
